@@ -258,6 +258,9 @@ def _notify(ctx: Ctx, c: Collector) -> None:
                     if not gts:
                         pr.append("triggers fire even if the attribute was not part of the output")
                     else:
+                        neg = [[T.negate(x) for x in og] for og in ok_guards if len(og) == 1]
+                        if gts in neg:
+                            pr.append("the trigger condition is negated: a step is scheduled exactly when the attribute was NOT part of the output")
                         extra = [x for x in gts if not any(x in og for og in ok_guards)]
                         if extra and any(x in og for og in ok_guards for x in gts):
                             pr.append("the trigger is additionally conditional on " + " and ".join(T.show(x) for x in extra) + ": some demanded steps are not scheduled")
@@ -290,6 +293,10 @@ def _output_time(ctx: Ctx, c: Collector) -> None:
         if not pol:
             a, b = b, a
         # cond: reported output time == step time
+        lastt = ("attr", ("attr", sim, "last_step"), "time")
+        if leaf[0] == "cmp" and leaf[1] == "==" and lastt in (leaf[2], leaf[3]):
+            # last_step is the step that was just performed: same value as current_step here
+            leaf = T.replace(leaf, {lastt: ("attr", cur, "time")})
         if not (leaf[0] == "cmp" and leaf[1] == "==" and ("attr", cur, "time") in (leaf[2], leaf[3])):
             if leaf[0] == "cmp" and leaf[1] == "<":
                 pr.append(f"the current sub-tiers are kept under {T.show(cond)} instead of only when the output time equals the step time")
@@ -305,6 +312,8 @@ def _output_time(ctx: Ctx, c: Collector) -> None:
                 pr.append(f"a later output time becomes {T.show(b)[:100]}, not TieredTime(output_time, 0, ..., 0) of the simulator's depth")
             elif not (T.contains(b[2][1], ("op", "-", call(T.glob("len"), cur), T.const(1)))):
                 pr.append("the zero sub-tiers do not have length len(current_step) - 1")
+            elif not T.contains(b[2][1], ("bag", (("elem", T.const(0), (), ()),), "list")):
+                pr.append("the sub-tiers of a later output time are not filled with 0")
     elif v[0] == "call" and v[1] == T.glob("mosaik.tiered_time.TieredTime"):
         pr.append("the output time never keeps the sub-tiers of the current step (output produced in a same-time loop triggers sub-step 0 again)")
     elif v in (cur, ("attr", sim, "last_step")):
